@@ -142,6 +142,7 @@ func cmdCheck(prop, tier string) int {
 	usedExt := map[string]bool{}
 	var fnNames []string
 	termMissing := []string{}
+	termRange := []string{}
 	for _, g := range gens {
 		obls = append(obls, g.obls...)
 		for _, wn := range g.warnings {
@@ -152,6 +153,12 @@ func cmdCheck(prop, tier string) int {
 		}
 		fnNames = append(fnNames, g.key)
 		for _, li := range g.loops {
+			if li.spec.Dec == nil && (strings.HasPrefix(li.head.Comment, "rangeindex") || strings.HasPrefix(li.head.Comment, "rangeint") || strings.HasPrefix(li.head.Comment, "rangeiter")) {
+				// a range loop over a slice, array, string, integer or map: the number of iterations is
+				// bounded by the language (the operand is evaluated once); no decreases clause is needed
+				termRange = append(termRange, fmt.Sprintf("%s loop %d", g.key, li.ord))
+				continue
+			}
 			if li.spec.Dec == nil {
 				termMissing = append(termMissing, fmt.Sprintf("%s loop %d", g.key, li.ord))
 			}
@@ -324,6 +331,7 @@ func cmdCheck(prop, tier string) int {
 	tb = append(tb, "govc SSA->VC translation; go/ssa; SMT solvers")
 	sort.Strings(fnNames)
 	sort.Strings(termMissing)
+	sort.Strings(termRange)
 	cov := map[string]any{
 		"obligations":              len(obls),
 		"discharged":               discharged,
@@ -336,6 +344,7 @@ func cmdCheck(prop, tier string) int {
 		"load_seconds":             round3(loadS),
 		"query_time_limit_s":       secs,
 		"termination_not_shown":    termMissing,
+		"termination_range_loops":  termRange,
 		"warnings":                 warnings,
 		"functions_not_found":      missingFns,
 		"cover_checks":             len(covers),
